@@ -57,7 +57,14 @@ def build(units, solvable=False):
             objs.append(Rotator(label=f"r{len(objs)}", rotation=u[1]))
         else:
             objs.append(CoolingPipe(label=f"c{len(objs)}", duration=1, inner_radius=0.05, coolant_volume_flux=1e-3))
-    return PassSequence(objs), objs
+    # the units handed to the sequence as a list, a tuple or a one-shot iterable (generator, reversed twice): the same sequence
+    _BUILDS[0] += 1
+    k = _BUILDS[0] % 4
+    container = objs if k == 0 else tuple(objs) if k == 1 else (o for o in objs) if k == 2 else iter(list(objs))
+    return PassSequence(container), objs
+
+
+_BUILDS = [0]
 
 
 def observe(units, auto):
@@ -181,9 +188,16 @@ def rotator_geometry_oracle(chk, rng, n):
 switched = []
 
 
+plugged = []
+
+
 def _switch_on():
-    """put the global auto-rotation switch back to its default"""
-    from pyroll.core import Config
+    """put the global auto-rotation switch back to its default (and take plug-in processors of a script away again)"""
+    from pyroll.core import Config, RollPass as _RP
+    while plugged:
+        f = plugged.pop()
+        if f in _RP.pre_processors:
+            _RP.pre_processors.remove(f)
     if switched:
         try:
             del Config.ROLL_PASS_AUTO_ROTATION
@@ -260,6 +274,8 @@ def _edit_histories(chk, rng):
         # the global switch concerns the AUTOMATIC rotation only: with the switch off, a number set on a pass is applied, and explicit rotators turn
         [('insert-rotator', 2, 90), ('auto-off',), ('set', 5, 30)], [('insert-rotator', 2, 90), ('auto-off',), ('set', 5, 1.0)],
         [('insert-rotator', 2, 90), ('set', 5, 45), ('auto-off',), ('read-rotation',), ('set', 5, 60)],
+        # a plug-in's own pre-processor on the pass class (a unit that hands the profile on unchanged): the entry rotation still happens, once
+        [('plugin-preprocessor',), ('insert-rotator', 2, 90)], [('plugin-preprocessor',), ('set', 4, 30)],
         # units wrapped into an inner sequence (a "line") and the whole flattened again: the arrangement is the same as before
         [('insert-rotator', 2, 90), ('nest-flatten', 1, 4)], [('nest-flatten', 0, 2), ('insert-rotator', 2, 90)], [('insert-rotator', 4, 90), ('nest-flatten', 3, 6)],
     ]
@@ -309,6 +325,16 @@ def _edit_histories(chk, rng):
                     seq.subunits.insert(op[1], u)
                 elif op[0] == 'del-slice':
                     del seq.subunits[op[1]:op[2]]
+                elif op[0] == 'plugin-preprocessor':
+                    from pyroll.core import Unit as _Unit
+                    from pyroll.core.profile import Profile as _BP
+
+                    class PassThrough(_Unit):
+                        def solve(self, in_profile):
+                            return _BP(**{k_: v_ for k_, v_ in in_profile.__dict__.items() if not k_.startswith("_")})
+                    fac = lambda unit: PassThrough(label="plugin stage")      # noqa
+                    RollPass.pre_processors.append(fac)
+                    plugged.append(fac)
                 elif op[0] == 'auto-off':
                     from pyroll.core import Config as _Cfg
                     _Cfg.ROLL_PASS_AUTO_ROTATION = False
